@@ -2,7 +2,7 @@
 import importlib, json, os
 from .common import VERIF
 
-CLAIMED = ["c07", "c09", "c10", "c18"]
+CLAIMED = ["c05", "c07", "c09", "c10", "c18"]
 
 NOT_APPLICABLE = {
     "C06": "file-system confinement: the property is about what metadata/canonicalize/File::open return (FFI, symlinks, OS path semantics); the only solver-sized kernel sits behind percent_decode and format! which Kani cannot symbolically execute within reach (DESIGN §2, §6)",
@@ -13,6 +13,8 @@ NOT_APPLICABLE = {
 PENDING = "check not built yet (work in progress; plan in DESIGN.md §5)"
 
 LEVEL_TEXT = {
+    "C05": ("Symbolic execution of wildcard_match's MIR (dumped from the current tree) with pattern/text as sequences of symbolic Unicode scalar values; for every pattern length <= 7 and text length <= 10 (thorough: 12 x 18) z3 shows that the function cannot panic and returns exactly what the glob recurrence ('*' = any sequence, every other character only itself) prescribes. The executor is validated on every run against the natively compiled function on the repository's own test pairs plus 200 seeded pairs incl. 2- and 4-byte characters, and one exported query is cross-checked with cvc5.",
+            "Trusted: the MIR executor and its std models (str::chars/Peekable/Option, listed in the evidence), z3; UTF-8 decoding is modelled at the level of chars."),
     "C07": ("Bounded model checking (Kani->CBMC->cadical) of the real status-code tables for every u16: exactly the modelled codes are accepted, code<->variant conversions are mutually inverse and every reason phrase is a registered one. Only this table clause of C07 is claimed; serialisation layout, response parser, chunked decoding and client are outside (not encodable, see DESIGN §5 C07).",
             "Trusted: Kani/CBMC, the phrase table in kani/src/c07.rs."),
     "C09": ("Bounded model checking of LoadBalancer::select_target as an inductive step for 1..4 targets: round-robin returns targets[index] and advances index modulo N from any index < N; random mode returns a member of the set from any seed < 2^33 with no arithmetic overflow and keeps seed < modulus. Only the target-selection clause of C09 is claimed; everything on the network is outside.",
